@@ -55,6 +55,13 @@ func workerMain() {
 		if err != nil {
 			return
 		}
+		if strings.HasPrefix(line, "A") {
+			js, _ := json.Marshal(aliasServe(strings.TrimSpace(line[1:])))
+			out.Write(js)
+			out.WriteByte('\n')
+			out.Flush()
+			continue
+		}
 		if strings.HasPrefix(line, "L") {
 			n, _ := strconv.Atoi(strings.TrimSpace(line[1:]))
 			r := limitProbe(n)
